@@ -889,11 +889,13 @@ Qed.
 Theorem agree_implies_prop_C18 : forall i o, agree_C18 i o = true -> kf_C18 i = 0 -> prop_C18 i o = true.
 Proof.
   intros i o Ha Hk. unfold agree_C18, run_C18 in Ha. unfold kf_C18 in Hk. unfold prop_C18.
-  destruct (decode_C18 i) as [[[[name a] r] x]|]; [|reflexivity].
-  apply val_eqb_eq in Ha. subst o. unfold model_C18.
-  destruct (build_call x name a) as [c|] eqn:Hb; [|reflexivity].
-  destruct (kf1 x name a r) eqn:K1; [discriminate|]. destruct (kf2 name a r) eqn:K2; [discriminate|].
-  rewrite (model_meets_doc x name a r c Hb K1 K2). destruct (cond_match x c r); reflexivity.
+  destruct (decode_C18 i) as [[[[name a] r] x]|].
+  - apply val_eqb_eq in Ha. subst o. unfold model_C18.
+    destruct (build_call x name a) as [c|] eqn:Hb; [|reflexivity].
+    destruct (kf1 x name a r) eqn:K1; [discriminate|]. destruct (kf2 name a r) eqn:K2; [discriminate|].
+    rewrite (model_meets_doc x name a r c Hb K1 K2). destruct (cond_match x c r); reflexivity.
+  - destruct (decode_shape i) as [[[[[name a] r] x] sh]|]; [|reflexivity].
+    apply val_eqb_eq in Ha. subst o. apply val_eqb_refl.
 Qed.
 
 (* central theorem: the model satisfies the property on every input outside the finding classes *)
